@@ -39,6 +39,34 @@
 (* (differs from every earlier reading), <<"td",k>> / <<"fl",k>> a frozen  *)
 (* timedelta / float of task k.                                            *)
 (*                                                                         *)
+(* NAMED DEVIATIONS -- behaviour of the code that the "obvious" properties   *)
+(* exclude.  They are modelled (the check must not alarm on what the code  *)
+(* legitimately or knowingly does), and each has a strong property below   *)
+(* that TLC refutes (expected counterexample = witness):                   *)
+(*   KillLate             the start value passed the gate, then kill(): the *)
+(*                        task is still launched and killed afterwards       *)
+(*                        (NoLaunchAfterKillCalled)                          *)
+(*   ExitInfoClobber      HandleTaskExit's 2nd emission says engineExitReason*)
+(*                        None / engineExitCode <task code> after the exit   *)
+(*                        (ReasonNeverClobbered; switch Clobber)             *)
+(*   SnapshotOvertaking   emit_now snapshots overtake each other in the      *)
+(*                        trigger pool (FirstDeadCarriesReason,              *)
+(*                        NoResurrection with Order = "any")                 *)
+(*   ClockTickOvertakes   a clock tick reads a fresh stateDictionary straight *)
+(*                        into the FIFO part, past snapshots still in their  *)
+(*                        hop (NoResurrection with Order = "fifo" + Tick)    *)
+(*   SilentRestart        restart() re-enters run() without emitting: a      *)
+(*                        restarted execution that ends before the next      *)
+(*                        snapshot is invisible to a consumer that tracks    *)
+(*                        changes of isAlive (switch RestartEmits; see the   *)
+(*                        FakeEngine contract test of harness/checks/g01.py) *)
+(*   StaleTerminate       a kill delivered after restart() kills the task of *)
+(*                        the NEW execution (WitnessStale)                   *)
+(*   StaleInitCompletion  a kill delivered to the __init__ subscription after*)
+(*                        restart() completes the NEW termination subject:   *)
+(*                        the new execution dies at the gate, or later       *)
+(*                        kill() calls are ignored (KillAlwaysHeard)         *)
+(*                                                                         *)
 (* Modes (constants): Quiet = TRUE is the environment-level view used for  *)
 (* the spec -> code direction: the environment acts only in quiescent      *)
 (* states, internal work settles in the canonical order of the driver      *)
@@ -59,6 +87,7 @@ CONSTANTS
   MaxEnv,      \* Quiet: number of environment actions per behaviour
   MaxKill, MaxTick, MaxRun,   \* bounds: kill() calls, clock ticks, run() calls (1 + restarts that go ahead)
   MaxSnaps,    \* bound on snapshots in flight (state constraint of the fine-grained model)
+  RestartEmits,\* FALSE: the code as it is (restart() re-enters run() silently); TRUE: restart() calls emit_now() after run()
   Clobber      \* TRUE: the code as it is (named deviation ExitInfoClobber below); FALSE: the repaired extract_info_from_emission
 
 VARIABLES
@@ -272,11 +301,12 @@ Restart ==
             /\ exitR' = "none" /\ runGen' = runGen + 1
             /\ lp' = "sched" /\ sw' = "idle" /\ s2' = "idle" /\ lreason' = "none"
             /\ rcode' = "RestartInitiated"
+            /\ IF RestartEmits THEN Push(<<Snap(runGen + 1, "none", shut, 0, FALSE, "none", 0, 0)>>) ELSE UNCHANGED snaps
        ELSE /\ rcode' = IF restarts + 1 > 3 THEN "RestartMaxAttemptsExceeded" ELSE "RestartCouldNotInitiate"
             /\ s2' = IF s2 = "pend" THEN "done" ELSE s2
-            /\ UNCHANGED <<restarts, proc, talive, treason, tkill, launched, finished, exitR, runGen, lp, sw, lreason>>
+            /\ UNCHANGED <<restarts, proc, talive, treason, tkill, launched, finished, exitR, runGen, lp, sw, lreason, snaps>>
   /\ Record("Restart")
-  /\ UNCHANGED <<shut, nlaunch, lkind, emitVars, nkill, ntick>>
+  /\ UNCHANGED <<shut, nlaunch, lkind, pipe, outq, fs, fdone, done, cv, lastU, nkill, ntick>>
 
 (* Engine.shutdown() (AssertionError while alive: not an action) *)
 Shutdown ==
